@@ -74,7 +74,11 @@ type Options struct {
 	Custom      bool // allow custom commands/conditions (Params drawn)
 	NoParams    bool // keep default Params (CLI sub-domain draws only ContinueOnError)
 	AllowChmod2 bool // allow "chmod perm a b" (several paths)
-	Host        tsmodel.Host
+	// Tools allows scripts that install a program of their own and run it (line kind "tool"). Only for scripts that run
+	// one at a time in their process: a file that was just written cannot be executed while a child forked by another
+	// goroutine during the write has not reached its exec yet (ETXTBSY), which is the operating system's doing.
+	Tools bool
+	Host  tsmodel.Host
 	// FixedParams, if set, is used instead of drawing Params (batches share one RunT call).
 	FixedParams *tsmodel.Params
 	// PidDir, if set, makes background block helpers record their pid in PidDir/<unique>.
@@ -152,6 +156,13 @@ func genArchive(t *rapid.T) []tsmodel.ArchiveFile {
 	for i := 0; i < n; i++ {
 		fs = append(fs, tsmodel.ArchiveFile{Name: rapid.SampledFrom(fileNames).Draw(t, "fname"), Data: rapid.SampledFrom(contents).Draw(t, "fdata")})
 	}
+	if rapid.IntRange(0, 2).Draw(t, "tools") == 1 {
+		// two-line shell scripts for the scripts that install a program of their own (line kind "tool")
+		fs = append(fs, tsmodel.ArchiveFile{Name: "tool.sh", Data: "#!/bin/sh\necho tool-ran\n"})
+		if rapid.Bool().Draw(t, "toolfail") {
+			fs = append(fs, tsmodel.ArchiveFile{Name: "toolfail.sh", Data: "#!/bin/sh\necho tool-failed\nexit 3\n"})
+		}
+	}
 	return fs
 }
 
@@ -228,10 +239,10 @@ func (g *gen) candidate() string {
 	neg := ""
 	kinds := []string{"exists", "exists", "grep", "grepcount", "cmp", "cp", "mkdir", "rm", "mv", "cd", "env", "chmod", "symlink", "unquote", "unix2dos", "stdin", "cmpenv", "usage", "unknown", "cond", "comment", "blank", "stop", "skip", "phaseskip"}
 	if g.o.Exec {
-		kinds = append(kinds, "exec", "exec", "exec", "stdout", "stdout", "stderr", "helpercmd")
+		kinds = append(kinds, "exec", "exec", "exec", "stdout", "stdout", "stderr", "helpercmd", "tool", "tool")
 	}
 	if g.o.Exec && g.o.Background {
-		kinds = append(kinds, "bg", "bg", "wait", "kill", "bgwait", "bgwait", "bgmix", "bgend", "bgmany", "bgmany")
+		kinds = append(kinds, "bg", "bg", "wait", "kill", "bgwait", "bgwait", "bgmix", "bgend", "bgmany", "bgmany", "bgdup")
 	}
 	if g.p.CustomCmds {
 		kinds = append(kinds, "probe", "probe", "probe", "failcmd", "cemit", "setenv", "defer", "getenv")
@@ -270,6 +281,14 @@ func (g *gen) candidate() string {
 		for i := 0; i < n; i++ {
 			if p, ok := g.existing(""); ok && rapid.Bool().Draw(t, "ex") {
 				fs = append(fs, Q(g.pathTo(p)))
+			} else if f, ok := g.existing("file"); ok && rapid.IntRange(0, 3).Draw(t, "through") == 2 {
+				// a path that leads through a regular file, or a name too long for the file system: there is nothing
+				// there, although looking fails in another way than "no such file"
+				if rapid.Bool().Draw(t, "toolong") {
+					fs = append(fs, strings.Repeat("n", 300))
+				} else {
+					fs = append(fs, Q(g.pathTo(f)+"/below"))
+				}
 			} else {
 				fs = append(fs, Q(g.missing()))
 			}
@@ -455,17 +474,63 @@ func (g *gen) candidate() string {
 			post = "\nexec vmain cat\n! stdout ."
 		}
 		return pre + neg + "cexec vmain " + g.helperArgs() + post
+	case "tool":
+		// a program the script installs itself, under a name that exists nowhere on the host: a directory of the script's
+		// own is put in front of PATH, the name is looked up once while nothing is there (or not), a shell script from the
+		// archive is copied under that name and made executable, and the name is run. Every lookup of a bare name happens
+		// when its line runs, whatever an earlier line found under that name.
+		if n := g.m.NodeAt("tool.sh"); !g.o.Tools || n == nil || n.Kind != "file" {
+			return g.simple()
+		}
+		g.ntag++
+		dir, prog := fmt.Sprintf("$WORK/tbin%d", g.ntag), fmt.Sprintf("zzprog%d", g.ntag)
+		ls := []string{"mkdir " + dir, "env PATH=" + dir + "${:}$PATH"}
+		switch rapid.IntRange(0, 3).Draw(t, "toolfirst") {
+		case 0:
+			ls = append(ls, "! exec "+prog)
+		case 1:
+			ls = append(ls, "["+"!exec:"+prog+"] exists $WORK/tool.sh")
+		case 2:
+			ls = append(ls, "[exec:"+prog+"] stop")
+		}
+		src := "tool.sh"
+		if n := g.m.NodeAt("toolfail.sh"); n != nil && n.Kind == "file" && rapid.IntRange(0, 2).Draw(t, "toolsrc") == 0 {
+			src = "toolfail.sh"
+		}
+		ls = append(ls, "cp $WORK/"+src+" "+dir+"/"+prog, "chmod 755 "+dir+"/"+prog)
+		if src == "tool.sh" {
+			ls = append(ls, neg+"exec "+prog, "stdout tool-ran")
+		} else {
+			if rapid.IntRange(0, 3).Draw(t, "toolwrongdemand") != 0 {
+				neg = "! "
+			}
+			ls = append(ls, neg+"exec "+prog, "stdout tool-failed")
+		}
+		if rapid.IntRange(0, 2).Draw(t, "toolgone") == 0 {
+			// and the name stops being a program again
+			ls = append(ls, rapid.SampledFrom([]string{"chmod 644 " + dir + "/" + prog, "rm " + dir + "/" + prog}).Draw(t, "toolgonehow"), "! exec "+prog)
+		}
+		return strings.Join(ls, "\n")
 	case "exec", "helpercmd":
 		prefix := "exec vmain "
 		if k == "helpercmd" {
 			prefix = rapid.SampledFrom([]string{"vmain ", "vhelper ", "exec vhelper "}).Draw(t, "hprefix")
 		}
 		if rapid.IntRange(0, 11).Draw(t, "missingprog") == 0 {
+			if g.o.Background && rapid.Bool().Draw(t, "missingbg") {
+				// a background command that cannot even be started: the line does not meet its demand
+				return neg + "exec nosuchprog arg " + rapid.SampledFrom([]string{"&", "&nb&"}).Draw(t, "missingspec")
+			}
 			return neg + "exec nosuchprog arg"
 		}
 		return neg + prefix + g.helperArgs()
 	case "bg":
 		g.nbg++
+		if g.o.PidDir != "" && rapid.IntRange(0, 24).Draw(t, "grandchild") == 13 {
+			// a background command that is over at once but leaves a grandchild holding its output pipes for a few
+			// seconds: the wait - and with it the end of the script - takes until the grandchild is gone
+			return fmt.Sprintf("exec vmain spawn --pid=%s/p%d-%d 3500 &\nwait", g.o.PidDir, rapid.IntRange(0, 1<<30).Draw(t, "pidtag"), g.nbg)
+		}
 		spec := "&"
 		if rapid.Bool().Draw(t, "named") {
 			spec = fmt.Sprintf("&b%d&", rapid.IntRange(1, 3).Draw(t, "bgname"))
@@ -485,6 +550,25 @@ func (g *gen) candidate() string {
 			return neg + "exec vmain block " + flags + " " + spec + "\nexec vmain waitfile " + ready
 		}
 		return neg + "exec vmain " + g.helperArgs() + " " + spec
+	case "bgdup":
+		// a background command under a name that is still on the list (running, or over and not waited for): the line is
+		// refused and nothing is started - so the helper has no --ready file anybody could wait for, and its pid file,
+		// should it ever appear, names a process nobody is going to stop
+		var names []string
+		for _, n := range g.m.Background() {
+			if n != "" {
+				names = append(names, n)
+			}
+		}
+		if len(names) == 0 {
+			return g.simple()
+		}
+		g.nbg++
+		flags := ""
+		if g.o.PidDir != "" {
+			flags = fmt.Sprintf(" --pid=%s/p%d-%d", g.o.PidDir, rapid.IntRange(0, 1<<30).Draw(t, "pidtag"), g.nbg)
+		}
+		return neg + "exec vmain block" + flags + " &" + rapid.SampledFrom(names).Draw(t, "dupname") + "&"
 	case "bgend":
 		// end the script (skip or stop) while background commands are still running
 		if len(g.m.Background()) == 0 {
@@ -544,6 +628,18 @@ func (g *gen) candidate() string {
 				ng = "! "
 			}
 			ls = append(ls, fmt.Sprintf("%sexec vmain emit -o out%d\\n -x %s %s", ng, g.nbg, rapid.SampledFrom([]string{"0", "0", "1", "2"}).Draw(t, "manycode"), spec))
+		}
+		if rapid.IntRange(0, 2).Draw(t, "manyblocker") == 1 {
+			// and last on the list a helper that never exits by itself: the unnamed wait must fail on one of the
+			// earlier commands (otherwise the script would wait for ever, and the reference interpreter abstains), and
+			// the end of the script then has to stop the helper
+			g.nbg++
+			ready := fmt.Sprintf("ready%d", g.nbg)
+			flags := "--ready=" + ready
+			if g.o.PidDir != "" {
+				flags += fmt.Sprintf(" --pid=%s/p%d-%d", g.o.PidDir, rapid.IntRange(0, 1<<30).Draw(t, "pidtag"), g.nbg)
+			}
+			ls = append(ls, "exec vmain block "+flags+" &", "exec vmain waitfile "+ready)
 		}
 		if len(manyNames) > 0 && rapid.Bool().Draw(t, "manywaitone") {
 			// first wait for one of the named ones: the others stay on the list for the unnamed wait
